@@ -93,6 +93,16 @@ def replay_once(binp, eng, path, scratch, timeout=600):
     return r.returncode != 0, r.stdout[-4000:]
 
 
+def ekey(eng):
+    return eng.get("name", eng["harness"])
+
+
+def engines_for_case(p, path):
+    """every engine built from the harness the directory names (a case is replayed on all of them)"""
+    h = os.path.basename(os.path.dirname(path))
+    return [e for e in p["engines"] if e["harness"] == h] or [p["engines"][0]]
+
+
 def engine_for_case(p, path):
     """corpus/<id>/<harness>/<file>: the directory names the harness."""
     h = os.path.basename(os.path.dirname(path))
@@ -232,11 +242,11 @@ def save_failure(pid, eng, case_path):
 def run(pid, p, a, seed, t0, scratch):
     bins = {}
     for eng in p["engines"]:
-        bins[eng["harness"]] = build_engine(eng)
+        bins[ekey(eng)] = build_engine(eng)
 
     if a.replay:
         eng = engine_for_case(p, os.path.abspath(a.replay))
-        failed, txt = replay_once(bins[eng["harness"]], eng, os.path.abspath(a.replay), scratch)
+        failed, txt = replay_once(bins[ekey(eng)], eng, os.path.abspath(a.replay), scratch)
         print(txt)
         if failed:
             print("VIOLATION property=%s replay=%s" % (pid, a.replay))
@@ -256,7 +266,7 @@ def run(pid, p, a, seed, t0, scratch):
         path = os.path.join(VERIF, f["replay"])
         open_paths.add(os.path.abspath(path))
         eng = engine_for_case(p, path)
-        failed, txt = replay_once(bins[eng["harness"]], eng, path, scratch)
+        failed, txt = replay_once(bins[ekey(eng)], eng, path, scratch)
         replayed += 1
         if failed:
             known_lines.append("KNOWN-FINDING: property=%s %s [%s]" % (pid, f["what"], f["id"]))
@@ -267,13 +277,14 @@ def run(pid, p, a, seed, t0, scratch):
     for path in sorted(glob.glob(os.path.join(VERIF, "corpus", pid, "*", "*"))):
         if os.path.abspath(path) in open_paths or os.path.isdir(path):
             continue
-        eng = engine_for_case(p, path)
-        if eng["type"] == "fuzz" and not eng.get("replay_corpus", True):
-            continue
-        failed, txt = replay_once(bins[eng["harness"]], eng, path, scratch)
-        replayed += 1
-        if failed:
-            violations.append((path, "saved regression case fails: " + txt[-600:]))
+        for eng in engines_for_case(p, path):
+            if eng["type"] == "fuzz" and not eng.get("replay_corpus", True):
+                continue
+            failed, txt = replay_once(bins[ekey(eng)], eng, path, scratch)
+            replayed += 1
+            if failed:
+                violations.append((path, "saved regression case fails: " + txt[-600:]))
+                break
 
     # ---- campaigns
     exclude = [f["id"] for f in open_f]
@@ -285,7 +296,7 @@ def run(pid, p, a, seed, t0, scratch):
         for eng in p["engines"]:
             if a.tier not in eng:
                 continue
-            agg = run_campaign(pid, p, eng, bins[eng["harness"]], a.tier, seed, scratch, exclude)
+            agg = run_campaign(pid, p, eng, bins[ekey(eng)], a.tier, seed, scratch, exclude)
             for k in ("evaluations", "vacuous", "excluded"):
                 total[k] += agg[k]
             for k in ("classes", "per_prop", "excluded_by"):
@@ -300,7 +311,7 @@ def run(pid, p, a, seed, t0, scratch):
                 # confirm by replaying the saved case (up to 3 times; one failing replay confirms)
                 confirmed = False
                 for _ in range(eng.get("confirm_tries", 3)):
-                    failed, txt = replay_once(bins[eng["harness"]], eng, case, scratch)
+                    failed, txt = replay_once(bins[ekey(eng)], eng, case, scratch)
                     if failed:
                         confirmed = True
                         break
